@@ -27,6 +27,9 @@ RULE = ("texts assembled from URL-like fragments (protocols incl. javascript/mix
         "stream places & and \" at every column 18..34 of URLs of length 28..64 with and without a '/'; all option combinations; "
         "non-trivial = at least one anchor emitted; distinct by canonical JSON")
 EXHAUSTIVE = {"quick": False, "thorough": False}
+CLAUSE_CAVEATS = [
+    "every theorem assumes Spec.WellFormed of CPython's _URL_RE match list (checked on every generated input): 'href starts with a permitted protocol' and 'the URL itself is entity-safe' come from that hypothesis, i.e. are tie-only with respect to the regex",
+]
 CLAUSES = {
     "output with its inserted anchor tags removed is the HTML-escaped input (no shortening)": "strip_anchors_identity",
     "when shortening, each link label is a prefix of its URL followed by '...'": "shorten_label_prefix",
